@@ -260,7 +260,7 @@ def write_evidence(prop: str, tier: str, seed: int, level: str, coverage: dict, 
     }
     if extra:
         ev.update(extra)
-    d = VERIF / "evidence"
+    d = Path(os.environ.get("VERIF_EVIDENCE_DIR") or VERIF / "evidence")
     d.mkdir(exist_ok=True)
     tmp = d / f".{prop}.json.tmp"
     tmp.write_text(json.dumps(ev, indent=1, ensure_ascii=False, default=_json_default, sort_keys=False) + "\n")
